@@ -1,10 +1,4 @@
 SPECIFICATION Spec
-CONSTANTS
-  Mode = "fasta"
-  MaxN = 300
-  FullTo = 400
-  Batch = 100
-  Stride = 1
-  Offset = 0
-
+CONSTANT MaxBlocks = 3
+INVARIANTS OpenSafe OpenComplete Unfinished EmitCase
 CHECK_DEADLOCK FALSE
